@@ -119,6 +119,8 @@ def writer_sat(s, known):
     quick = s.tier == "quick"
     s.model("WriterSat", workers=8, constants={"N": 2 if quick else 3, "L": 4})
     s.model("WriterSat", cfg="WriterSatDev.cfg", workers=2, expect_violation="Faithful")
+    # the arithmetic lemma for the real constants (2^32-value words, 2^28-1 limit) and unbounded ideal values
+    s.apalache("SatInd", [("Init", "IndInv", 0), ("IndInit", "IndInv", 1), ("IndInit", "RefusalExact", 0)])
     if not s.inproc_ok:
         return
     for n in (1, 3) if quick else (1, 2, 3, 5):
